@@ -44,6 +44,9 @@ def plan(tier, seed):
             ph = "PhaseSpaceFactorAbs" if (L + rep) % 2 == 0 else REAL_PHSP[(rep + c + p) % 3]
             cases.append({"cls": "RelativisticKMatrix", "n_ch": c, "n_poles": p, "L": L, "phsp": ph, "rep": rep, "sub": True,
                           "cost": 2 + (40 if c == 3 else 0)})
+            if L % 2 == 0:
+                cases.append({"cls": "RelativisticKMatrix", "n_ch": c, "n_poles": p, "L": L, "phsp": "PhaseSpaceFactorAbs", "rep": rep, "sub": "pseudo",
+                              "cost": 2 + (40 if c == 3 else 0)})
     if tier == "quick":
         # one relativistic 3-channel case (the symbolic 3x3 inverse costs ~30 s): (1 - i rho K-hat) is not symmetric there
         cases.append({"cls": "RelativisticKMatrix", "n_ch": 3, "n_poles": 1, "L": 0, "phsp": "PhaseSpaceFactor", "rep": 0, "cost": 45})
@@ -78,7 +81,7 @@ def _judge_t(rec, ctx, cls_name, T, n_ch, n_poles, kw):
     from vmon.refmodel.kmatrix import eval_matrix, eval_matrix_lambdify, random_env
     rng = ctx["case_rng"]
     n_s = 16
-    sub = bool(ctx.get("case_sub")) and cls_name == "RelativisticKMatrix"
+    sub = ctx.get("case_sub") if cls_name == "RelativisticKMatrix" else False
     env, desc = random_env(rng, n_ch, n_poles, n_s, subthreshold=sub)
     L = kw.get("angular_momentum", 0)
     ph = getattr(kw.get("phsp_factor"), "__name__", None)
@@ -144,7 +147,7 @@ def run_case(case, rec, ctx):
                                                 angular_momentum=(j + case["rep"]) % 3, meson_radius=[1, 2][j % 2])
         return
     cls = getattr(K, case["cls"])
-    ctx["case_sub"] = bool(case.get("sub"))
+    ctx["case_sub"] = case.get("sub") or False
     if case["cls"] == "NonRelativisticKMatrix":
         cls.formulate(case["n_ch"], case["n_poles"])
     else:
